@@ -96,10 +96,10 @@ def jt_replay(prop, tier, seed, res, exe=None, classes=("verdict", "panic", "cra
     return summ
 
 
-def jt_record_validate(prop, tier, seed, res, n, exe=None, checks=("verdict", "panic")):
+def jt_record_validate(prop, tier, seed, res, n, exe=None, checks=("verdict", "panic"), label="record"):
     exe = exe or build_harness()
     beh, st = jt_behaviours(tier)
-    out = fresh(prop, "record")
+    out = fresh(prop, label)
     shards = 16
     rc, o, err = run_vh(exe, ["jt-record", "--seed", seed, "--n", n, "--out", os.path.join(out, "trace"), "--shards", shards,
                              "--beh", beh, "--tables", tables()], inflight=os.path.join(out, "inflight"))
@@ -127,12 +127,13 @@ def jt_record_validate(prop, tier, seed, res, n, exe=None, checks=("verdict", "p
     c["states"] += accepted + len(files)
     c["transitions"] += accepted
     c["evaluations"] += summ["events"]
-    c.setdefault("record", {})["jt"] = dict(summ, accepted_lines=accepted, rejected=len(rejects))
+    c.setdefault("record", {})["jt" if label == "record" else label] = dict(summ, accepted_lines=accepted, rejected=len(rejects))
     if summ["events"]:
         with open(files[0]) as f:
             ev = json.loads(f.readline())
         c["samples"].append({"trace_event": {"origin": ev["origin"], "bytes": bytes(ev["b"]).decode("utf-8", "replace"),
                                              "res": {k: v.get("ok") for k, v in ev["res"].items()}}})
+    return files
 
 
 def check_C02(tier, seed):
@@ -227,9 +228,9 @@ def nest_family(res, tier):
 
 
 
-def lg_record_validate(prop, tier, seed, res, n, checks, exe=None):
+def lg_record_validate(prop, tier, seed, res, n, checks, exe=None, label="lg"):
     exe = exe or build_harness()
-    out = fresh(prop, "lg")
+    out = fresh(prop, label)
     shards = 16
     rc, o, err = run_vh(exe, ["lg-record", "--seed", seed, "--n", n, "--out", os.path.join(out, "trace"), "--shards", shards],
                         inflight=os.path.join(out, "inflight"))
@@ -259,11 +260,12 @@ def lg_record_validate(prop, tier, seed, res, n, checks, exe=None):
     c["states"] += accepted + len(files)          # TLC states of the trace specification (one per consumed line + initial)
     c["transitions"] += accepted
     c["evaluations"] += summ["events"]
-    c.setdefault("record", {})["lg"] = dict(summ, accepted_lines=accepted, rejected=len(rejects))
+    c.setdefault("record", {})[label] = dict(summ, accepted_lines=accepted, rejected=len(rejects))
     with open(files[0]) as f:
         ev = json.loads(f.readline())
     c["samples"].append({"trace_event": {"ev": ev["ev"], "origin": ev.get("origin"), "bytes": bytes(ev["b"]).decode("utf-8", "replace")[:200],
                                          "path": ev.get("path", ev.get("paths")), "res": {k: v.get("ok", v.get("items")) for k, v in ev["res"].items()}}})
+    return files
 
 
 def check_C10(tier, seed):
@@ -301,9 +303,9 @@ def check_C14(tier, seed):
     return res.finish()
 
 
-def generic_record_validate(prop, res, sub, args, trace_module, consts, label, shards=16, features=()):
+def generic_record_validate(prop, res, sub, args, trace_module, consts, label, shards=16, features=(), variant="native"):
     """run a `vh <sub>` recorder and validate its shards with a Trace_* spec"""
-    exe = build_harness(features=features)
+    exe = build_harness(features=features, variant=variant)
     out = fresh(prop, label)
     rc, o, err = run_vh(exe, [sub, "--out", os.path.join(out, "trace"), "--shards", shards] + args, inflight=os.path.join(out, "inflight"))
     if rc != 0:
@@ -334,6 +336,7 @@ def generic_record_validate(prop, res, sub, args, trace_module, consts, label, s
         with open(files[0]) as f:
             ev = json.loads(f.readline())
         c["samples"].append({"trace_event": {k: (bytes(v).decode("utf-8", "replace")[:120] if k in ("lit", "b") else v) for k, v in ev.items() if k in ("ev", "origin", "lit", "b", "ws")}})
+    summ["_files"] = [os.path.join(out, "trace.%d.ndjson" % i) for i in range(shards)]
     return summ
 
 
@@ -488,6 +491,144 @@ def check_C18(tier, seed):
     res.coverage["distinct_nontrivial"] = res.coverage["traces_validated_against_impl"]
     res.coverage["exhaustive"] = True
     return res.finish()
+
+
+def simd_tables():
+    d = wdir("beh")
+    path = os.path.join(d, "simd.ndjson")
+    stats_p = path + ".stats"
+    src = [os.path.join(vlib.TLA, f) for f in ("Simd.tla", "MC_Simd.tla")]
+    stamp = "".join(str(os.path.getmtime(f)) for f in src)
+    if os.path.exists(path) and os.path.exists(stats_p):
+        st = json.load(open(stats_p))
+        if st.get("stamp") == stamp:
+            return path, st
+    st = tlc_mc("MC_Simd", {"EmitOn": "TRUE"}, emit_path=path, tag="MC_Simd", workers=8)
+    st["stamp"] = stamp
+    st.pop("log_tail", None)
+    json.dump(st, open(stats_p, "w"))
+    return path, st
+
+
+def _sort_members(x):
+    if isinstance(x, dict):
+        x = {k: _sort_members(v) for k, v in x.items()}
+        if isinstance(x.get("m"), list) and x.get("t") == "obj":
+            x["m"] = sorted(x["m"], key=lambda kv: json.dumps(kv))
+        return x
+    if isinstance(x, list):
+        return [_sort_members(v) for v in x]
+    return x
+
+
+def diff_traces(res, label, files_a, files_b, cap=5):
+    """the two builds ran the same recorder with the same seed: every recorded event must be identical"""
+    n = same = 0
+    reported = 0
+    for fa, fb in zip(files_a, files_b):
+        with open(fa) as a, open(fb) as b:
+            la, lb = a.readlines(), b.readlines()
+        if len(la) != len(lb):
+            res.add_mismatch({"suite": "backend-diff", "class": "backend-diff", "label": label, "why": "%s: the two builds recorded %d vs %d events in %s" % (label, len(la), len(lb), os.path.basename(fa))})
+        for i, (x, y) in enumerate(zip(la, lb)):
+            n += 1
+            if x == y:
+                same += 1
+                continue
+            ex, ey = json.loads(x), json.loads(y)
+            if ex.get("ev") == "schema" and _sort_members(ex) == _sort_members(ey):
+                same += 1        # get_by_schema fills a hash map with a per-process random state: member order of its result is not an observable of the backend
+                continue
+            if reported >= cap:
+                continue
+            reported += 1
+            keys = sorted(k for k in set(ex) | set(ey) if ex.get(k) != ey.get(k))
+            sub = {}
+            for k in keys:
+                if isinstance(ex.get(k), dict) and isinstance(ey.get(k), dict):
+                    sub[k] = {kk: [ex[k].get(kk), ey[k].get(kk)] for kk in set(ex[k]) | set(ey[k]) if ex[k].get(kk) != ey[k].get(kk)}
+                else:
+                    sub[k] = [ex.get(k), ey.get(k)]
+            lit = bytes(ex.get("lit", ex.get("b", []))) if isinstance(ex.get("lit", ex.get("b", [])), list) else b""
+            res.add_mismatch({"suite": "backend-diff", "class": "backend-diff", "label": label, "ev": ex.get("ev"), "bytes_hex": lit.hex(), "bytes_lossy": lit.decode("utf-8", "replace"),
+                              "differs": json.loads(json.dumps(sub))if len(json.dumps(sub)) < 4000 else {"fields": keys}, "trace_file": fa, "other_file": fb, "line_no": i + 1,
+                              "why": "%s: event %d of %s differs between the native (AVX2/PCLMUL) and the baseline x86-64 build in %s" % (label, i + 1, os.path.basename(fa), keys)})
+    return n, same
+
+
+def check_C17(tier, seed):
+    res = Result("C17", tier, seed, "model_checking")
+    res.coverage["rule"] = ("(1) Simd.tla defines every vector primitive lane-wise (eq / unsigned le / signed gt, le; mask or/and; bitmask; first_offset, before, all_zero, clear_high_bits; "
+                            "prefix xor; whitespace classifier; 16-digit reader). TLC emits tables (every byte value in every lane at widths 16/32/64 against the scanner constants, mask "
+                            "patterns, whitespace grids, digit runs x terminators x need) that are replayed on: the backend each build selects (AVX2 and SSE2 in the native build; SSE2 with "
+                            "composed 256/512 in the baseline build), the portable v128->v256->v512 chain and both arch helper sets (x86_64 and fallback, compiled from /repo's sources). "
+                            "(2) the class-string behaviours of MC_JsonText are replayed in the baseline build (verdict, value, panic) and the recorders of C02/C03/C20, C09, C10-C14, C05/C06 and C07 "
+                            "run with identical seeds in both builds: the traces must be byte-identical and the baseline traces are validated by the same TLC trace specifications")
+    beh, st = simd_tables()
+    res.coverage["states"] += st["distinct"]
+    res.coverage["transitions"] += st["states"]
+    res.coverage.setdefault("tlc", {})["MC_Simd"] = {k: st[k] for k in ("states", "distinct", "seconds")}
+    exes = {v: build_harness(variant=v) for v in ("native", "baseline")}
+    for v, exe in exes.items():
+        out = fresh("C17", "sd_" + v)
+        rc, o, err = run_vh(exe, ["sd-replay", "--beh", beh, "--out", out])
+        if rc != 0:
+            raise ToolError("sd-replay (%s) failed rc=%s %s" % (v, rc, err[-400:]))
+        summ = json.load(open(os.path.join(out, "summary.0.json")))
+        for m in summ["mismatches"]:
+            m["build"] = v
+            res.add_mismatch(m)
+        res.coverage["evaluations"] += summ["evaluations"]
+        res.coverage["traces_validated_against_impl"] += summ["cases"]
+        res.coverage.setdefault("replay", {})["sd_" + v] = {k: summ[k] for k in ("cases", "evaluations", "per_backend", "native")}
+    # (2a) the exhaustive class-string behaviours in the baseline build
+    summ = jt_replay("C17", tier, seed, res, exe=exes["baseline"], classes=("verdict", "value", "inconsistent", "panic", "crash"))
+    # (2b) identical recorder runs in both builds
+    q = tier == QUICK
+    pairs = {}
+    for v in ("native", "baseline"):
+        p = {}
+        if v == "baseline":
+            p["jt"] = jt_record_validate("C17", tier, seed, res, 3000 if q else 150000, exe=exes[v], checks=("verdict", "value", "errpos", "panic"), label="jt_" + v)
+            p["lg"] = lg_record_validate("C17", tier, seed, res, 4000 if q else 150000, ("c10", "c11", "c12", "c14", "latch", "stream", "panic"), exe=exes[v], label="lg_" + v)
+            def gv(sub, args, mod, label):
+                r = generic_record_validate("C17", res, sub, args, mod, {}, label + "_" + v, variant=v)
+                return r["_files"] if r else None
+        else:
+            p["jt"] = record_only(exes[v], "jt-record", ["--seed", seed, "--n", 3000 if q else 150000, "--beh", jt_behaviours(tier)[0], "--tables", tables()], "C17", "jt_" + v)
+            p["lg"] = record_only(exes[v], "lg-record", ["--seed", seed, "--n", 4000 if q else 150000], "C17", "lg_" + v)
+            def gv(sub, args, mod, label):
+                return record_only(exes[v], sub, args, "C17", label + "_" + v)
+        p["st"] = gv("st-record", ["--seed", seed, "--n", 3000 if q else 200000, "--mode", "sweep"], "Trace_Strings", "st")
+        p["cp"] = gv("st-record", ["--seed", seed, "--n", 211 if q else 7, "--mode", "codepoints"], "Trace_Strings", "cp")
+        p["ser"] = gv("sr-record", ["--seed", seed, "--n", 1500 if q else 80000, "--mode", "ser"], "Trace_Ser", "ser")
+        p["rt"] = gv("sr-record", ["--seed", seed, "--n", 1500 if q else 80000, "--mode", "rt"], "Trace_Ser", "rt")
+        p["nm"] = gv("nm-record", ["--seed", seed, "--n", 3000 if q else 150000, "--mode", "parse"], "Trace_Numbers", "nm")
+        p["nw"] = gv("nm-record", ["--seed", seed, "--n", 3000 if q else 150000, "--mode", "write"], "Trace_Numbers", "nw")
+        p["lz"] = gv("lz-record", ["--seed", seed, "--n", 1500 if q else 60000], "Trace_Lazy", "lz")
+        pairs[v] = p
+    tot = eq = 0
+    for label, fa in pairs["native"].items():
+        fb = pairs["baseline"].get(label)
+        if not fa or not fb:
+            if not fa:
+                res.add_mismatch({"suite": "backend-diff", "class": "crash", "label": label, "why": "the native build did not complete the %s recorder" % label})
+            continue
+        n, same = diff_traces(res, label, fa, fb)
+        tot += n
+        eq += same
+        res.coverage.setdefault("backend_diff", {})[label] = {"events": n, "identical": same}
+    res.coverage["evaluations"] += tot
+    res.coverage["exhaustive"] = True
+    return res.finish()
+
+
+def record_only(exe, sub, args, prop, label, shards=16):
+    out = fresh(prop, label)
+    rc, o, err = run_vh(exe, [sub, "--out", os.path.join(out, "trace"), "--shards", shards] + args, inflight=os.path.join(out, "inflight"))
+    if rc != 0:
+        return None
+    return [os.path.join(out, "trace.%d.ndjson" % i) for i in range(shards)]
 
 
 def check_C07(tier, seed):
